@@ -3,7 +3,7 @@ CONSTANTS
   MaxClock = 1000
   MaxKK = 0
   MaxRd = 0
-  NQ = 8
+  NQ = 12
   MaxLatch = 0
   FileSteps = FALSE
   QKinds = {}
